@@ -53,8 +53,28 @@ macro_rules! on_app_ref {
     };
 }
 
+/// address formats a simulated chain may use (one per run; part of the plan)
+pub const PREFIXES: [&str; 4] = ["cosmwasm", "juno", "osmo", "x"];
+
+thread_local! {
+    static PREFIX: std::cell::Cell<&'static str> = const { std::cell::Cell::new("cosmwasm") };
+}
+
+pub fn set_prefix(p: &str) {
+    let s = PREFIXES.iter().find(|x| **x == p).copied().unwrap_or("cosmwasm");
+    PREFIX.with(|c| c.set(s));
+}
+
+pub fn prefix() -> &'static str {
+    PREFIX.with(|c| c.get())
+}
+
+pub fn chain_api() -> MockApi {
+    MockApi::default().with_prefix(prefix())
+}
+
 pub fn account_addr(name: &str) -> Addr {
-    MockApi::default().addr_make(name)
+    chain_api().addr_make(name)
 }
 
 #[derive(Clone, Debug, PartialEq, serde::Serialize)]
@@ -151,6 +171,7 @@ impl<'r> World<'r> {
             .collect();
         let chain = if custom_chain {
             let app: AppC = AppBuilder::new_custom()
+                .with_api(chain_api())
                 .with_custom(CModule)
                 .build(|router, _api, storage| {
                     for (a, c) in &accts {
@@ -161,7 +182,7 @@ impl<'r> World<'r> {
                 });
             Chain::C(Box::new(sylvia::multitest::App::new(app)))
         } else {
-            let app: AppE = AppBuilder::new().build(|router, _api, storage| {
+            let app: AppE = AppBuilder::new().with_api(chain_api()).build(|router, _api, storage| {
                 for (a, c) in &accts {
                     if !c.is_empty() {
                         router.bank.init_balance(storage, a, c.clone()).unwrap();
@@ -575,6 +596,17 @@ impl<'r> World<'r> {
                 json!({"h": format!("{:016x}", h), "journal": journal, "keys": n, "info": info}),
             );
         }
+        // the code records (who stored what)
+        for id in &self.code_ids {
+            let info = on_app_ref!(&self.chain, app => app.wrap().query_wasm_code_info(*id));
+            out.insert(
+                format!("code:{}", id),
+                match info {
+                    Ok(i) => json!({"creator": i.creator.as_str(), "checksum": i.checksum.to_hex()}),
+                    Err(e) => Value::String(e.to_string()),
+                },
+            );
+        }
         let mut who: Vec<String> = self.accounts.clone();
         who.extend(self.contracts.iter().map(|c| c.addr.clone()));
         for w in who {
@@ -630,6 +662,7 @@ pub struct RunRecord {
 /// Execute a plan from scratch. Pure function of (plan, code).
 pub fn execute(plan: &Plan, reg: &Reg) -> RunRecord {
     bb::reset();
+    set_prefix(&plan.prefix);
     bb::with(|s| {
         for (k, f) in &plan.faults {
             s.plan.entry(*k).or_default().push(f.clone());
